@@ -790,6 +790,11 @@ impl<F: Float, A: Data<Elem = F>> CostFunction for LogisticRegressionProblem1<'_
     fn cost(&self, p: &Self::Param) -> std::result::Result<Self::Output, argmin::core::Error> {
         let w = p.as_array();
         let cost = logistic_loss(self.x, &self.target, self.alpha, w);
+        if !cost.is_finite() {
+            // NaN parameters (e.g. after a zero-length L-BFGS step at the f32 noise floor): stop
+            // instead of feeding NaN to the line search, which would never return
+            return Err(argmin::core::Error::msg("logistic loss is not finite"));
+        }
         Ok(cost)
     }
 }
@@ -814,6 +819,11 @@ impl<F: Float, A: Data<Elem = F>> CostFunction for LogisticRegressionProblem2<'_
     fn cost(&self, p: &Self::Param) -> std::result::Result<Self::Output, argmin::core::Error> {
         let w = p.as_array();
         let cost = multi_logistic_loss(self.x, &self.target, self.alpha, w);
+        if !cost.is_finite() {
+            // NaN parameters (e.g. after a zero-length L-BFGS step at the f32 noise floor): stop
+            // instead of feeding NaN to the line search, which would never return
+            return Err(argmin::core::Error::msg("logistic loss is not finite"));
+        }
         Ok(cost)
     }
 }
